@@ -734,7 +734,12 @@ public:
     return *this;
   }
 
-  bool is_bottom() const override { return _is_bottom; }
+  bool is_bottom() const override {
+    // _is_bottom is only refreshed by some operations (e.g., join)
+    // but the underlying numerical value can become bottom at any
+    // operation (e.g., division by zero, unsatisfiable constraint).
+    return _is_bottom || _impl.is_bottom();
+  }
 
   bool is_top() const override { return !_var_map.size() && !is_bottom(); }
 
